@@ -54,11 +54,19 @@ type diskState struct {
 	transEnd   map[string]int64 // side -> sequence at which the last transition returned; under h.mu
 	canaryHash string
 	staging    string
-	midcycle   *midcycleEvent    // under mu
-	mounts     map[string]string // side -> mount point of its own small tmpfs (a separate device), if any
+	midcycle   *midcycleEvent       // under mu
+	mounts     map[string]string    // side -> mount point of its own small tmpfs (a separate device), if any
+	raceLost   map[string]bool      // contents destroyed inside a transition's documented check-then-act window
+	values     map[string]userValue // sha1 (hex) of every content the user ever wrote -> where and when last
 	canaryMu   sync.Mutex
 	inotify    int              // inotify descriptor watching the canary tree (-1: none)
 	watches    map[int32]string // watch descriptor -> canary-relative directory
+}
+
+// userValue remembers where the simulated user last put a piece of content.
+type userValue struct {
+	side, path string
+	seq        int64
 }
 
 // midcycleEvent is a user action that strikes just before the Nth hooked
@@ -527,6 +535,19 @@ func (d *diskState) onDestroy(side, rel, op string) {
 		// The user touched this path after the transition began: mutagen's
 		// check-then-act window is documented as unavoidable.
 		h.s.Count("probe.destroy_in_race_window", 1)
+		// (What is lost in that window is lost by a documented race, not by a
+		// decision of the synchronization algorithm: the conservation rule at
+		// rest does not count it.)
+		d.mu.Lock()
+		if d.raceLost == nil {
+			d.raceLost = map[string]bool{}
+		}
+		walk(cur, rel, func(_ string, e *core.Entry) {
+			if e.Kind == core.EntryKind_File {
+				d.raceLost[string(e.Digest)] = true
+			}
+		})
+		d.mu.Unlock()
 		return
 	}
 	if cur.Kind == core.EntryKind_Directory {
@@ -694,6 +715,48 @@ func (d *diskState) recordEdit(side, rel string) {
 	d.mu.Lock()
 	d.userEdit[side+":"+rel] = seq
 	d.mu.Unlock()
+}
+
+// recordValues notes the content of every regular file at or below a path the
+// user just wrote (read back from the disk: a write into a full device leaves
+// what it leaves), so that every byte in a root is attributable to the user.
+func (d *diskState) recordValues(side, rel string) {
+	root := d.roots[side]
+	if rel != "" && !parentsAreDirs(root, rel) {
+		return
+	}
+	d.mu.Lock()
+	seq := d.userEdit[side+":"+rel]
+	d.mu.Unlock()
+	var visit func(abs, r string)
+	visit = func(abs, r string) {
+		st, err := os.Lstat(abs)
+		if err != nil {
+			return
+		}
+		switch {
+		case st.IsDir():
+			names, _ := os.ReadDir(abs)
+			for _, n := range names {
+				child := n.Name()
+				if r != "" {
+					child = r + "/" + n.Name()
+				}
+				visit(filepath.Join(abs, n.Name()), child)
+			}
+		case st.Mode().IsRegular():
+			if data, err := os.ReadFile(abs); err == nil {
+				sum := sha1.Sum(data)
+				d.mu.Lock()
+				if d.values == nil {
+					d.values = map[string]userValue{}
+				}
+				d.values[string(sum[:])] = userValue{side, r, seq}
+				d.mu.Unlock()
+			}
+		}
+	}
+	visit(filepath.Join(root, rel), rel)
 }
 
 // clearPath makes room for a new entry at abs: parents become directories,
@@ -867,6 +930,15 @@ func (d *diskState) userOp(op simkit.Op) {
 		d.touch(parent)
 	}
 	d.recordEdit(side, rel)
+	switch op.Kind {
+	case "put", "putbig", "edit":
+		// (only what this operation itself wrote: a regular file at that path)
+		if st, err := os.Lstat(abs); err == nil && st.Mode().IsRegular() {
+			d.recordValues(side, rel)
+		}
+	case "cp", "mv":
+		d.recordValues(side, op.Str(2))
+	}
 	d.h.s.Logf("user", "%s %s %q -> %s", op.Kind, side, rel, render(d.walkTree(side)))
 	d.h.s.Count("probe.user_edits", 1)
 }
@@ -905,6 +977,13 @@ func (d *diskState) unfill(side string) {
 func (d *diskState) mirror() {
 	rmAll(d.roots["beta"])
 	copyTree(d.roots["alpha"], d.roots["beta"])
+	// (the user's doing: whatever beta held before is superseded)
+	d.mu.Lock()
+	d.values = nil
+	d.mu.Unlock()
+	d.recordEdit("beta", "")
+	d.recordValues("alpha", "")
+	d.recordValues("beta", "")
 }
 
 // mkSpecial creates an entry of an unsupported type: a UNIX socket file. (A
@@ -1284,6 +1363,71 @@ func (e *diskEndpoint) Transition(ctx context.Context, transitions []*core.Chang
 	}
 	h.s.Logf("ctl."+e.side, "transition %d changes -> %d problems missing=%v -> %s", len(transitions), len(problems), missing, render(tree))
 	return results, problems, missing, err
+}
+
+// checkAttribution runs at rest on real roots. (C10) Every regular file holds a
+// content the simulated user wrote at some point: anything else is a corrupt,
+// truncated or mixed-up transfer that reached a root. (C01, two-way-safe) A
+// content the user wrote and nobody superseded - no later user action on that
+// path, an ancestor or a descendant, on either side, no conflict covering it -
+// still exists somewhere.
+func (d *diskState) checkAttribution(a, b *core.Entry, st *synchronization.State, underConflict func(string) bool) {
+	h := d.h
+	d.mu.Lock()
+	values := make(map[string]userValue, len(d.values))
+	for k, v := range d.values {
+		values[k] = v
+	}
+	raceLost := make(map[string]bool, len(d.raceLost))
+	for k := range d.raceLost {
+		raceLost[k] = true
+	}
+	edits := make(map[string]int64, len(d.userEdit))
+	for k, v := range d.userEdit {
+		edits[k] = v
+	}
+	d.mu.Unlock()
+	present := map[string]bool{}
+	for side, tree := range map[string]*core.Entry{"alpha": a, "beta": b} {
+		walk(tree, "", func(p string, e *core.Entry) {
+			if e.Kind != core.EntryKind_File {
+				return
+			}
+			present[string(e.Digest)] = true
+			if _, ok := values[string(e.Digest)]; !ok && !strings.Contains(p, temporaryPrefix) {
+				h.s.Violate("C10", "unattributable-content", "rest", "at rest %s holds a file %q whose content (sha1 %x) the user never wrote anywhere: a corrupt, truncated or mixed-up transfer reached the root", side, p, e.Digest[:4])
+			}
+		})
+	}
+	h.s.Count("probe.attribution_checked", 1)
+	if h.mode != core.SynchronizationMode_SynchronizationModeTwoWaySafe {
+		return
+	}
+	problems := st.AlphaState != nil && st.BetaState != nil && len(st.AlphaState.TransitionProblems)+len(st.BetaState.TransitionProblems)+len(st.AlphaState.ScanProblems)+len(st.BetaState.ScanProblems) > 0
+	if problems {
+		return
+	}
+	var lost []string
+	for digest, v := range values {
+		if present[digest] || underConflict(v.path) || raceLost[digest] {
+			continue
+		}
+		superseded := false
+		for k, seq := range edits {
+			_, p, _ := strings.Cut(k, ":")
+			if seq > v.seq && pathRelated(p, v.path) {
+				superseded = true
+				break
+			}
+		}
+		if !superseded {
+			lost = append(lost, fmt.Sprintf("%q written on %s (sha1 %x)", v.path, v.side, digest[:4]))
+		}
+	}
+	sort.Strings(lost)
+	if len(lost) > 0 {
+		h.s.Violate("C01", "user-value-lost", "rest", "content the user wrote and never touched again exists on neither endpoint at rest, and no conflict covers it: %s", strings.Join(lost, "; "))
+	}
 }
 
 // checkExecutabilityKept is the on-disk half of C18 for the endpoint that stores
